@@ -117,7 +117,7 @@ def register3(w):
     w.contract(U_ + "processLinkFile", selfclass=["UMNDirHandler"], globals=GROOT,
                params={"filename": "str", "capfilepath": "opt[str]"},
                requires=list(old.requires), modifies=["self.entry", MROOT],
-               raises={"OSError": True, "IndexError": True, "ValueError": True}, returns="list[obj:LinkEntry]",
+               raises={"OSError": True}, returns="list[obj:LinkEntry]",
                ghost={"open_files": "trace", "opened_paths": "trace"},
                loops={0: dict(invariant=["fd.pos <= len(fd.content)", "0 <= fd.pos", "len(ghost.open_files) == 1"],
                               decreases="len(fd.content) - fd.pos", havoc=["fd.pos"], types={"linkentries": "list[obj:LinkEntry]"})},
@@ -133,7 +133,7 @@ def register3(w):
                requires=["fd.pos <= len(fd.content)", "S.secure(self.selector)", "self.selector.startswith('/')",
                          "G.rootpath is None or G.rootpath == '' or G.rootpath == self.config.get('pygopherd', 'root')",
                          "S.abs_root(self.config.get('pygopherd', 'root'))", "self.vfs.config is self.config"],
-               modifies=["fd.pos", "self.entry", MROOT], raises={"IndexError": True, "ValueError": True},
+               modifies=["fd.pos", "self.entry", MROOT], raises={},
                returns="tuple[str,opt[obj:LinkEntry]]",
                ensures=["result[0] == 'stop' or result[0] == 'continue'",
                         "fd.pos <= len(fd.content)", "fd.pos >= old(fd.pos)",
@@ -144,23 +144,14 @@ def register3(w):
                                                   "nextstep == 'continue'"],
                               havoc=["fd.pos"], decreases="len(fd.content) - fd.pos"),
                       1: dict(invariant=["fd.pos <= len(fd.content)", "0 <= fd.pos", "fd.pos >= ghost.p1"], havoc=["fd.pos"], entry_ghost={"p1": "fd.pos"})},
-               note="IndexError/ValueError are declared for malformed content only ('Type=' without a character, non-numeric 'Port='): the property quantifies over well-formed link files; "
+               note="raises nothing for ANY content of the link file (a 'Type=' without a character and a non-numeric 'Port=' are ignored like an unparsable 'Numb='; repaired defect, see known_findings); "
                     "Host=+ / Port=+ leave host/port unset (= this server); every call that does not hit end of file consumes at least one line (termination of processLinkFile)",
                props=["C08", "C03"])
 
 
 def register4(w):
-    """Malformed link-file content ('Type=' without a character, non-numeric 'Port=') may raise IndexError /
-    ValueError out of the parser; the properties quantify over well-formed content, so the callers declare it."""
-    MAL = {"IndexError": True, "ValueError": True}
-    for q, cls in ((U_ + "prep_initfiles_canaddfile", "UMNDirHandler"), (H + "dir.py::DirHandler.prep_initfiles", "DirHandler"),
-                   (H + "dir.py::DirHandler.prep_initfiles", "UMNDirHandler"), (H + "dir.py::DirHandler.prepare", "DirHandler"),
-                   (U_ + "prepare", "UMNDirHandler")):
-        c = w.contracts.get((q, cls))
-        if c is not None:
-            c.raises = dict(c.raises, **MAL)
-            c.note = (c.note + "; " if c.note else "") + "IndexError/ValueError only for malformed link-file content (outside the properties' quantifier)"
-
+    """(The link parser used to raise IndexError / ValueError for malformed content and the callers declared it: that
+    encoded a defect.  Repaired in /repo; the parser and its callers now raise nothing for any link-file content.)"""
     register_fileext(w)
     register_conf(w)
 
